@@ -387,6 +387,112 @@ def check_disp(ck, prog):
     ck.floor("C14-DISP", 5)
 
 
+W64 = ("size_t", "uint64_t", "lzma_vli", "uintptr_t", "unsigned long")
+
+
+def _is64(prog, f, n):
+    n = ex.strip(n)
+    if n is None:
+        return False
+    k = n.get("k")
+    if k == "var":
+        for v in f.vars:
+            if v["n"] == n["n"] and v.get("id") == n.get("id"):
+                return (v.get("ty") or "").replace("const ", "") in W64
+    if k == "mem":
+        rec = prog.records.get(n.get("rec")) or {"fields": []}
+        for fd_ in rec["fields"]:
+            if fd_["n"] == n["f"]:
+                return (fd_.get("ty") or "").replace("const ", "") in W64
+    if k == "cast":
+        return (n.get("ty") or "").replace("const ", "") in W64
+    if k == "bin" and n["op"] not in ("<<", ">>", "==", "!=", "<", ">", "<=", ">=", "&&", "||"):
+        return _is64(prog, f, n["l"]) or _is64(prog, f, n["r"])
+    return False
+
+
+def check_maskw(ck, prog):
+    """`size & ~63U`: the complement is computed in 32 bits and zero-extended, so it also clears bits 32..63 of a 64-bit
+    size.  A check function then silently skips multiples of 4 GiB of its input."""
+    ck.rule("C14-MASKW", "no 64-bit byte count or address is ANDed with a mask that was complemented in 32 bits")
+    n = 0
+    for f in sorted(prog.all_functions(), key=lambda f: (f.file, f.line)):
+        if not f.blocks:
+            continue
+        for b, i, e in f.iter_elems():
+            for x in ex.walk(e, into_refs=False):
+                ops = None
+                if x.get("k") == "bin" and x["op"] == "&":
+                    ops = (x["l"], x["r"])
+                elif x.get("k") == "asg" and x["op"] == "&=":
+                    ops = (x["l"], x["r"])
+                if not ops:
+                    continue
+                for a, c in (ops, ops[::-1]):
+                    cv = ex.const_val(c)
+                    if cv is None or not _is64(prog, f, a):
+                        continue
+                    n += 1
+                    trunc = 0xFFFF0000 <= cv < 0xFFFFFFFF and ((cv | (cv - 1)) & 0xFFFFFFFF) == 0xFFFFFFFF
+                    if trunc:
+                        ck.saw_function(f)
+                        ck.ob("C14-MASKW", "%s@%s" % (f.name, ex.line(x)), False, common.where(f, x),
+                              "%s(): `%s` masks a 64-bit quantity with %#x -- a mask complemented in 32-bit arithmetic; it also "
+                              "clears bits 32..63, so sizes of 4 GiB and more are processed only partially" % (
+                                  f.name, ex.show(x), cv), key="MASKW:%s" % f.name)
+    ck.ob("C14-MASKW", "all", True, "src/liblzma/check", "%d AND operations on 64-bit sizes/addresses examined" % n,
+          key="MASKW:all")
+    if n < 8:
+        raise AnalysisBroken("C14-MASKW: only %d AND operations on 64-bit operands found" % n)
+
+
+def check_datapath(ck, prog):
+    """Structural clauses of the table-driven CRC loops and of the SHA-256 buffering."""
+    ck.rule("C14-PATH", "generic CRC: the alignment prologue cannot consume more bytes than the size guard leaves; "
+                        "SHA-256 update: the buffer offset is recomputed from the running byte count for every piece")
+    for fn, file in (("lzma_crc32_generic", "crc32_fast.c"), ("lzma_crc64_generic", "crc64_fast.c")):
+        f = prog.fn(fn, file, required=False)
+        if f is None:
+            raise AnalysisBroken("%s vanished" % fn)
+        ck.saw_function(f)
+        guardv = maskv = None
+        for b in f.blocks.values():
+            if not (b.term and "cond" in b.term):
+                continue
+            c = ex.strip(b.term["cond"])
+            if c.get("k") == "bin" and c["op"] == ">" and ex.show(c["l"]) == "size" and ex.const_val(c["r"]) is not None:
+                guardv = ex.const_val(c["r"])
+            if c.get("k") == "bin" and c["op"] == "&" and "buf" in ex.show(c["l"]) and ex.const_val(c["r"]) is not None \
+                    and b.term.get("kind") == "WhileStmt":
+                maskv = ex.const_val(c["r"])
+        ok = guardv is not None and maskv is not None and maskv <= guardv
+        ck.ob("C14-PATH", fn + ":prologue", ok, common.where(f),
+              "%s: the alignment loop (address & %s) consumes at most %s bytes and runs only when size > %s" % (
+                  fn, maskv, maskv, guardv) if ok else
+              "%s(): the alignment loop (address & %s) can consume up to %s bytes but is entered when size > %s: for short "
+              "unaligned input `size` wraps around and the function reads past the buffer / returns a wrong CRC" % (
+                  fn, maskv, maskv, guardv), key="PATH:%s:prologue" % fn)
+    f = prog.fn("lzma_sha256_update", "sha256.c")
+    ck.saw_function(f)
+    in_loop = set()
+    for b in f.blocks.values():
+        if b.id in cfg.reachable(f, cfg.succs(f, b.id)):
+            in_loop.add(b.id)
+    cs = [(b.id, ex.deref(e)) for b, i, e in f.iter_elems() if ex.deref(e).get("k") == "decl" and ex.deref(e)["n"] == "copy_start"]
+    adv = [(b.id, ex.show(n), ex.show(r)) for b, i, e in f.iter_elems() for (l, r, op, n) in ex.writes(e)
+           if ex.show(l) == "check->state.sha256.size" and op == "+="]
+    ok = len(cs) == 1 and cs[0][0] in in_loop and cs[0][1].get("init") is not None and \
+        "sha256.size" in ex.show(cs[0][1]["init"]) and len(adv) == 1 and adv[0][0] in in_loop and adv[0][2] == "copy_size"
+    ck.ob("C14-PATH", "sha256_update:offset", ok, common.where(f),
+          "lzma_sha256_update: copy_start = size & 63 is recomputed in every iteration and the byte count advances by "
+          "copy_size inside the loop" if ok else
+          "lzma_sha256_update(): the offset into the 64-byte block buffer is not recomputed from the running byte count "
+          "in every iteration (copy_start: %s; size updates: %s): an update that crosses a block boundary starting at "
+          "a non-zero offset hashes the following pieces at the wrong offset" % (
+              [(bid in in_loop) for bid, _ in cs], adv), key="PATH:sha256_update:offset")
+    ck.floor("C14-PATH", 3)
+
+
 def run(ck):
     ck.explanation = (
         "Every entry of the CRC32/CRC64 slice tables (3072 values), the CLMUL folding and Barrett constants, the "
@@ -400,3 +506,5 @@ def run(ck):
     check_tab(ck, prog)
     check_sha(ck, prog)
     check_disp(ck, prog)
+    check_maskw(ck, prog)
+    check_datapath(ck, prog)
